@@ -138,10 +138,16 @@ def contains(I, item, coll):
         return S(z3.Select(coll.has, I.to_term(item)))
     if isinstance(coll, RDict):
         return S(z3.Select(z3.Select(coll.region.has, coll.row), I.to_term(item)))
+    if isinstance(coll, RSeq) and coll.kind in ("dict", "keys"):
+        j = I.fresh("j_key", z3.IntSort())
+        t = I.to_term(item)
+        return z3.Exists([j], z3.And(j >= 0, j < coll.region.length, z3.Select(coll.keys, j) == t),
+                         patterns=[z3.Select(coll.keys, j)])
     if isinstance(coll, SList):
         j = I.fresh("j_in", z3.IntSort())
         t = I.to_term(item)
-        ex = z3.Exists([j], z3.And(j >= 0, j < coll.length, z3.Select(coll.elt, j) == t))
+        ex = z3.Exists([j], z3.And(j >= 0, j < coll.length, z3.Select(coll.elt, j) == t),
+                       patterns=[z3.Select(coll.elt, j)])
         return ex
     if isinstance(coll, (IObject, RObj)):
         f, _ = coll.cls.lookup("__contains__")
@@ -387,6 +393,15 @@ def iterate(I, v, for_unpack=False):
         if f is not None:
             return iterate(I, I.call(IBound(f, v), [], {}))
     if isinstance(v, Sym):
+        if for_unpack and I.kind(v) == "str":
+            # unpacking a string of unknown length into `for_unpack` targets
+            n = for_unpack
+            t = get_s(v.term)
+            if not I.prover.fork(z3.Length(t) == n):
+                I.raise_builtin("ValueError", "not enough/too many values to unpack (expected %d)" % n)
+            return [Sym(VStr(z3.SubString(t, k, 1))) for k in range(n)]
+        if for_unpack and I.kind(v) != "str":
+            I.raise_builtin("TypeError", "cannot unpack non-iterable object")
         raise OutOfReach("iteration over a symbolic value")
     if isinstance(v, (SList, RSeq)):
         raise OutOfReach("iteration over symbolic collection outside a loop rule")
